@@ -53,6 +53,7 @@ struct S1 : FSM1::State {
 	void entryGuard(GuardControl& c) {
 		Ctx& x = c.context();
 		x.trace->add("1eg", ID, c.stateId(), c.pendingTransition().destination);
+		x.trace->add("1ego", c.pendingTransition().origin, c.currentTransition().origin, c.request().origin);
 		const unsigned r = x.rng->below(8);
 		if (r == 0) c.cancelPendingTransition();
 		else if (r == 1) c.changeTo(static_cast<ffsm2::StateID>(x.rng->below(5)));
@@ -61,13 +62,14 @@ struct S1 : FSM1::State {
 	void exitGuard(GuardControl& c) {
 		Ctx& x = c.context();
 		x.trace->add("1xg", ID, c.stateId(), c.pendingTransition().destination);
+		x.trace->add("1xgo", c.pendingTransition().origin, c.currentTransition().origin, c.request().origin);
 		const unsigned r = x.rng->below(10);
 		if (r == 0) c.cancelPendingTransition();
 		else if (r == 1) c.changeTo(static_cast<ffsm2::StateID>(x.rng->below(5)));
 	}
-	void enter(PlanControl& c)   { c.context().trace->add("1en", ID, c.stateId(), c.currentTransition().destination); }
-	void reenter(PlanControl& c) { c.context().trace->add("1re", ID, c.stateId(), c.currentTransition().destination); }
-	void exit(PlanControl& c)    { c.context().trace->add("1ex", ID, c.stateId(), c.currentTransition().destination); }
+	void enter(PlanControl& c)   { c.context().trace->add("1en", ID, c.currentTransition().origin, c.currentTransition().destination); }
+	void reenter(PlanControl& c) { c.context().trace->add("1re", ID, c.currentTransition().origin, c.currentTransition().destination); }
+	void exit(PlanControl& c)    { c.context().trace->add("1ex", ID, c.currentTransition().origin, c.currentTransition().destination); }
 	void act(const char* tag, FullControl& c) {
 		Ctx& x = c.context();
 		unsigned mask = 0;
@@ -110,6 +112,7 @@ struct S2 : FSM2::State {
 	void entryGuard(GuardControl& c) {
 		Ctx& x = *c.context();
 		x.trace->add("2eg", ID, c.pendingTransition().destination, payOf(c.pendingTransition()));
+		x.trace->add("2ego", c.pendingTransition().origin, c.currentTransition().origin, c.request().origin);
 		const unsigned r = x.rng->below(7);
 		if (r == 0) c.cancelPendingTransition();
 		else if (r == 1) { const ffsm2::StateID d = static_cast<ffsm2::StateID>(x.rng->below(3)); const Pay p = mkPay(x.rng->below(200)); c.changeWith(d, p); }
@@ -120,7 +123,7 @@ struct S2 : FSM2::State {
 		x.trace->add("2xg", ID, c.pendingTransition().destination, payOf(c.pendingTransition()));
 		if (x.rng->below(9) == 0) c.cancelPendingTransition();
 	}
-	void enter(PlanControl& c)   { c.context()->trace->add("2en", ID, c.currentTransition().destination, payOf(c.currentTransition())); }
+	void enter(PlanControl& c)   { c.context()->trace->add("2en", ID, c.currentTransition().destination, payOf(c.currentTransition())); c.context()->trace->add("2eno", c.currentTransition().origin, 0, 0); }
 	void reenter(PlanControl& c) { c.context()->trace->add("2re", ID, c.currentTransition().destination, payOf(c.currentTransition())); }
 	void exit(PlanControl& c)    { c.context()->trace->add("2ex", ID, c.currentTransition().destination, payOf(c.currentTransition())); }
 	void act(const char* tag, FullControl& c) {
